@@ -35,11 +35,12 @@ def c05(pid, tier, seed, selftest=False):
     rep.add_model("terms", tres, "byte-layout templates")
     thorough = tier == "thorough"
     res = run_tlc(pid, "noise-mc", "NoiseAdv", noise_cfg(C05_INV + ["Emit"]), workers=1, timeout=600)
-    rep.add_model("noise-mc", res, "exhaustive check of NoiseAdv (4608 scenarios) against the C05 invariants; emits scenarios")
+    rep.add_model("noise-mc", res, "exhaustive check of NoiseAdv (13 824 scenarios incl. attacker-forged 'ss') against the C05 invariants; emits scenarios")
     if res.violated:
         raise ToolError("NoiseAdv violates %s (model bug)" % res.violated)
     if thorough or selftest:
         for dev, must in [("DevSkipSS", ["NoNullKey", "SenderAuthentic", "RespectsClass"]),
+                          ("DevReaderIgnoresSsFailure", ["NoNullKey", "SenderAuthentic", "RespectsClass"]),
                           ("DevIgnoreDhZero", ["Refused", "NoNullKey"])]:
             r = run_tlc(pid, "neg-" + dev, "NoiseAdv", noise_cfg(C05_INV, dev), workers=2, timeout=300)
             rep.add_model("neg-" + dev, r, "negative configuration: deviation must break " + str(must))
@@ -50,6 +51,8 @@ def c05(pid, tier, seed, selftest=False):
     scenarios = []
     for i, r in enumerate(res.replays):
         sc = r["sc"]
+        if sc["forge"] != "none" and not thorough and sc["splice"] != "none":
+            continue    # quick tier: forged handshakes without additional splicing
         has_lo = "LO" in (sc["sClaim"], sc["rs"], sc["eClaim"])
         los = range(nlo) if (has_lo and (thorough or i % 7 == 0)) else ([i % nlo] if has_lo else [0])
         for lo in los:
@@ -57,7 +60,7 @@ def c05(pid, tier, seed, selftest=False):
                               "plen": [10, 0, 70000][i % 3] if thorough else 10})
     seeds = [seed] if not thorough else [seed, seed + 1, seed + 2]
     for s in scenarios:
-        honest = (s["sc"]["sClaim"] == s["sc"]["sPriv"] and s["sc"]["eClaim"] == s["sc"]["ePriv"] and s["sc"]["splice"] == "none"
+        honest = (s["sc"]["forge"] == "none" and s["sc"]["sClaim"] == s["sc"]["sPriv"] and s["sc"]["eClaim"] == s["sc"]["ePriv"] and s["sc"]["splice"] == "none"
                   and s["sc"]["rs"] == s["sc"]["rPriv"] == s["sc"]["rParam"])
         rep.case(json.dumps([s["sc"], s["lo"]], sort_keys=True), not honest)
     for s in scenarios[:1] + scenarios[len(scenarios) // 2:len(scenarios) // 2 + 2]:
